@@ -201,7 +201,7 @@ def c05_rules():
         lambda prog, tier: vstattype.run(prog),
         lambda prog, tier: rowcopy.run(prog, shared_eff(prog)),
         lambda prog, tier: normlen.run(prog),
-        lambda prog, tier: inval.run_pricedim(prog, shared_eff(prog)),
+        lambda prog, tier: inval.run_pricedim(prog, shared_eff(prog)), lambda prog, tier: inval.run_basiscache(prog, shared_eff(prog)),
         lambda prog, tier: inval.run_failpath(prog, shared_eff(prog)),
         lambda prog, tier: inval.run_normstale(prog, shared_eff(prog)),
         lambda prog, tier: inval.run_rstatsense(prog, shared_eff(prog)),
@@ -480,7 +480,7 @@ PROPS = {
                        "of the raw->lp index maps (seed C11/1)",
     },
     "C12": {
-        "rules": [lambda prog, tier: verdict.run(prog), lambda prog, tier: verdict.run_subject(prog), lambda prog, tier: verdict.run_basicdual(prog),
+        "rules": [lambda prog, tier: verdict.run(prog), lambda prog, tier: verdict.run_subject(prog), lambda prog, tier: verdict.run_basicdual(prog), lambda prog, tier: inval.run_basiscache(prog, shared_eff(prog)),
                   lambda prog, tier: optptr.run(prog),
                   lambda prog, tier: localfield.run(prog, shared_eff(prog), scope=lambda f: f.unit.endswith("qsopt_ex/exact.c") or "fct_mpq" in f.unit or "basis_mpq" in f.unit, floor=8),
                   lambda prog, tier: vtypezero.run(prog),
@@ -879,6 +879,12 @@ for _pid in ("C07", "C17"):
         " (R-LPINIT) every scalar field of the simplex record (flags of the embedded status records included) that a function reachable from the "
         "public interface reads outside the simplex machinery is written by the record's initialisation: a query on a problem that was never "
         "solved does not branch on uninitialised memory.")
+for _pid in ("C05", "C12"):
+    _ADD.setdefault(_pid, {})
+    _ADD[_pid]["explanation"] = _ADD[_pid].get("explanation", "") + (
+        " (R-BASISCACHE) a public function that may replace the statuses of p->basis, or that calls a routine which exchanges basic and non-basic "
+        "variables, returns successfully only after p->factorok = 0, an invalidation of the cached solution, or the storing of a new one: the "
+        "'nothing has changed' shortcut of QSopt_primal / QSopt_dual never answers for a basis the cached solution does not belong to.")
 _ADD.setdefault("C17", {})
 _ADD["C17"]["explanation"] = _ADD["C17"].get("explanation", "") + (
     " (R-CAPSYNC) a pointer field that is paired with a capacity field (some function allocates it with a computed length and stores that very "
